@@ -164,6 +164,30 @@ let run_e2e (v : variant) (toks : string list) : string =
   | [] -> "empty"
   | l -> String.concat " " l
 
+(* ---- asynchronous bus and teardown (case kind ae2e): terminate events are held and delivered one at a time ---- *)
+let run_ae2e (v : variant) (toks : string list) : string =
+  let show1 w t =
+    let k = key_of_tok e2e_tuples.(t) in
+    let ((ni, np), own) = e2e_snapshot w k in
+    let o = match own with
+      | None -> "-"
+      | Some p -> if p = proto_ipoe then "i" else if p = proto_pppoe then "p" else "?" in
+    Printf.sprintf "t%d:i%dp%d:%s" t (int_of_nat ni) (int_of_nat np) o in
+  let show w t = String.concat "," (show1 w t :: List.filter_map (fun u -> if u = t then None else Some (show1 w u)) [0; 1; 2; 3]) in
+  let rec go aw toks acc =
+    match toks with
+    | [] -> List.rev acc
+    | op :: rest ->
+      let t = if String.length op > 1 then Char.code op.[1] - 48 else 0 in
+      let k = key_of_tok e2e_tuples.(t) in
+      let aw' = a_step v aw (match op.[0] with
+          | 'D' | 'Q' | 'S' -> ACreateI k | 'P' -> APadr k | 'V' -> ADeliver | 'X' -> APadt k | 'O' -> AOperI k
+          | _ -> failwith ("bad ae2e op " ^ op)) in
+      go aw' rest (show aw'.a_w t :: acc) in
+  match go aworld0 toks [] with
+  | [] -> "empty"
+  | l -> String.concat " " l
+
 (* ---- ownership across a restart (harness/C17/zz_verif_c17_{pppoe,ipoe}_restore_test.go): the component under
    test is real, the other protocol's side is simulated by the harness as the model describes it.
    N<t> = the component under test creates a session on tuple t, X<t> = the other side gets a packet, B = restart ---- *)
@@ -352,6 +376,7 @@ let () =
             else if String.length v >= 6 && String.sub v 0 6 = "NONLIN" then "rejected"
             else "malformed"
           | "e2e" :: rest -> run_e2e variant rest
+          | "ae2e" :: rest -> run_ae2e variant rest
           | "rpppoe" :: rest -> run_restore true variant rest
           | "ripoe" :: rest -> run_restore ~halfopen_unclaimed:(vname = "pre_d2827a3") false variant rest
           | "ipoe" :: rest -> run_callers proto_ipoe rest (if idx < Array.length impl then tokens impl.(idx) else [])
